@@ -10,7 +10,7 @@ L1_NOTE = "Seam L1: the real leptos_i18n_parser::parse_locales run on project di
 CLAIMED = {
     "C01": (
         "bounded exhaustive enumeration of value forests executed on the real parser (L1) and through generated crates (L3), compared with a reference renderer",
-        "Every value forest over Text/Var/Comp up to the node bound, every whitespace combination inside tags and variables, literal segments made of white space only, numbers and booleans taken in through references, the value kinds (incl. references to a value that holds a reference) under every inherits map of a four-locale set declared in every order, every payload pair next to every delimiter, all literal-type pairs, in three containers (top level, nested subkeys, namespaces) is parsed by the real parse_locales and its tree evaluated the way generated code reads it; the result must equal the reference rendering of the AST the files were generated from. A shared probe crate holds values with 0..3 tag look-alikes (<br>, <hr/>, <p>) before and between real components, with ASCII and multi-byte text: nothing of the text is lost. References followed by white space (with and without arguments; at the end of the value, before more text, at both ends) keep it.",
+        "Every value forest over Text/Var/Comp up to the node bound, every whitespace combination inside tags and variables, literal segments made of white space only, numbers and booleans taken in through references, the value kinds (incl. references to a value that holds a reference) under every inherits map of a four-locale set declared in every order, every payload pair next to every delimiter, all literal-type pairs, in three containers (top level, nested subkeys, namespaces) is parsed by the real parse_locales and its tree evaluated the way generated code reads it; the result must equal the reference rendering of the AST the files were generated from. A shared probe crate holds values with 0..3 tag look-alikes (<br>, <hr/>, <p>) before and between real components, with ASCII and multi-byte text: nothing of the text is lost. References followed by white space (with and without arguments; at the end of the value, before more text, at both ends) keep it. Arguments reach a variable inside a component, a nested one, inside and outside at once, renamed on the way.",
         L1_NOTE + " Text alphabet excludes lone '<', '{{', '$t(' (no documented escape).",
         "DESIGN.md §3 C01",
     ),
@@ -22,7 +22,7 @@ CLAIMED = {
     ),
     "C04": (
         "exhaustive enumeration of range declarations x counts (all 256 for i8/u8) on the real loader (L1), in generated match arms of probe crates (L3) and through the real code generator (L2), against an independent spec parser + Rust comparison semantics",
-        "Every 1- and 2-branch (thorough: 3-branch) declaration over the spec alphabet for i8/u8 is evaluated for all 256 counts from the parsed Range<T> structures and selected at parse time through $t(r,{count:n}); wider integer types and floats are covered on boundary neighbourhoods and extremes; declarations in which two branches share one value; counts just outside the count type (rejected, never wrapped); float ranges with counts written as JSON integers (negative ones too); three- and four-level reference chains in which a middle key renames the count and outer keys pass an unrelated `count` must keep the range on its renamed count; declarations the statement rejects must be errors, a literal count no branch contains must be an error - never a panic or a wrong branch. Run-time float counts include NaN and both infinities.",
+        "Every 1- and 2-branch (thorough: 3-branch) declaration over the spec alphabet for i8/u8 is evaluated for all 256 counts from the parsed Range<T> structures and selected at parse time through $t(r,{count:n}); wider integer types and floats are covered on boundary neighbourhoods and extremes; declarations in which two branches share one value; counts just outside the count type (rejected, never wrapped); float ranges with counts written as JSON integers (negative ones too); three- and four-level reference chains in which a middle key renames the count and outer keys pass an unrelated `count` must keep the range on its renamed count; declarations the statement rejects must be errors, a literal count no branch contains must be an error - never a panic or a wrong branch. Run-time float counts include NaN and both infinities. Bounds and counts include values no f32 holds exactly (0.1, 0.3, 0.7), at parse time and at run time.",
         L1_NOTE + " Rust's FromStr/PartialOrd define what bounds mean. Empty/inverted ranges may be rejected or accepted.",
         "DESIGN.md §3 C04",
     ),
@@ -34,19 +34,19 @@ CLAIMED = {
     ),
     "C06": (
         "exhaustive enumeration of reference chains (every name assignment), small digraphs incl. cycles, inherits maps x null/absent targets, locale and namespace variants on the real loader (L1) and in generated probe crates (L3) against a pure-substitution reference",
-        "Every chain of depth <= 2 (thorough 3) over 18 referencing forms (argument texts with multi-byte characters) x 10 target kinds in every assignment of key names, special targets (groups, missing keys, paths with a dangling middle segment), all digraphs on <= 3 nodes, 4-locale projects with explicit-null and inherited targets, two-namespace layouts: accepted projects must render exactly the substitution semantics in every locale, rejected ones must give an Err naming a key. String arguments holding markup (a component alone, next to text, around a variable, nested, self-closed) go into a plain target, a wrapping target and through two hops.",
+        "Every chain of depth <= 2 (thorough 3) over 18 referencing forms (argument texts with multi-byte characters) x 10 target kinds in every assignment of key names, special targets (groups, missing keys, paths with a dangling middle segment), all digraphs on <= 3 nodes, 4-locale projects with explicit-null and inherited targets, two-namespace layouts: accepted projects must render exactly the substitution semantics in every locale, rejected ones must give an Err naming a key. String arguments holding markup (a component alone, next to text, around a variable, nested, self-closed) go into a plain target, a wrapping target and through two hops. Literal float counts (whole and fractional) to f32 / f64 ranges with exact values and span ends.",
         L1_NOTE + " A target absent from the same locale's file cannot be referenced (documented) - expected Err.",
         "DESIGN.md §3 C06",
     ),
     "C07": (
         "exhaustive enumeration of per-locale key-set patterns x inherits x suppress_key_warnings build on the real loader (L1) against an exact-multiset diagnostics model, plus positive/negative compile probes of the generated key set (L3)",
-        "Every combination of presence/null/absence/group-value swap over a nested key universe, plural states and eight surplus shapes (incl. a surplus plural with a form its locale never selects) for a non-default locale (thorough: a third locale with every inherits map), with and without namespaces, the locales declared in every order, in the normal and the suppress_key_warnings build: the multiset of MissingKey/SurplusKey/UnusedForm diagnostics, the accessible key set, SubKeyMissmatch errors and every rendered key must be exactly what the statement says; (L3) namespaces with their own key and argument sets declared in a non-alphabetical order (thorough: all 6 orders of 3) compile and render each key with exactly its own arguments. Subkey groups and ranges named like plural forms stay the keys they are written as (64 projects, flat and namespaced).",
+        "Every combination of presence/null/absence/group-value swap over a nested key universe, plural states and eight surplus shapes (incl. a surplus plural with a form its locale never selects) for a non-default locale (thorough: a third locale with every inherits map), with and without namespaces, the locales declared in every order, in the normal and the suppress_key_warnings build: the multiset of MissingKey/SurplusKey/UnusedForm diagnostics, the accessible key set, SubKeyMissmatch errors and every rendered key must be exactly what the statement says; (L3) namespaces with their own key and argument sets declared in a non-alphabetical order (thorough: all 6 orders of 3) compile and render each key with exactly its own arguments. Subkey groups and ranges named like plural forms stay the keys they are written as (64 projects, flat and namespaced). Plural forms that live only inside subkey groups (one and two levels deep) of files without top-level forms.",
         L1_NOTE,
         "DESIGN.md §3 C07",
     ),
     "C08": (
         "exhaustive enumeration of per-locale value-kind tuples for one key on the real loader (L1) against a union-of-signatures model, plus compile probes (supplying exactly the union compiles, omitting any member does not) through the real proc-macro (L3)",
-        "Every 1-, 2- and 3-tuple of value kinds across locales (string, variables with and without formatters, components, three range types, plural, foreign keys renaming the count, fixing it (at an exact value, at the last value of a bounded branch) or passing an argument into a component / a plural form of the target or an argument that is itself a component, null, number, bool): the observed argument set (with count typing and formatter families) must be the union over locales after substitution, and count-typing conflicts must be the documented errors. Kinds include ranges that are nothing but their fallback arm (typed and untyped).",
+        "Every 1-, 2- and 3-tuple of value kinds across locales (string, variables with and without formatters, components, three range types, plural, foreign keys renaming the count, fixing it (at an exact value, at the last value of a bounded branch) or passing an argument into a component / a plural form of the target or an argument that is itself a component, null, number, bool): the observed argument set (with count typing and formatter families) must be the union over locales after substitution, and count-typing conflicts must be the documented errors. Kinds include ranges that are nothing but their fallback arm (typed and untyped). A literal count to an ordinal plural whose forms need different things.",
         L1_NOTE + " L3: one probe binary per omitted member, judged by `cargo check` diagnostics naming the probe file.",
         "DESIGN.md §3 C08",
     ),
@@ -64,7 +64,7 @@ CLAIMED = {
     ),
     "C11": (
         "exhaustive sweep of every Unicode scalar value and nasty two-character strings through the real loader (L1), the generated code's table sizes and indices (L2, syn visitor), the build helper's written files (vbuild, strict JSON reader) and the tables embedded in server-rendered pages (L3), checking every literal index against the exported table",
-        "Every Unicode scalar as a one-character translation and all pairs over 14 hostile characters, in flat, nested-subkey, namespaced, defaulted and foreign-key-duplicated layouts: each Literal::String(s,i) must satisfy strings[i]==s with i in range, and the string count recorded in every (sub-)locale must equal the table length; plus every assignment of 3 shared strings / an interpolation / null to 2 keys in 3-4 locales (x inherits x namespaces) and, for the build helper, every sequence of <= 3 exports of 4 project variants into one output directory; every assignment of 7 literal kinds to one key in 3 locales; (L3) the tables embedded in server-rendered pages (dynamic_load + ssr probe crates, every ordered subset of touched units incl. units with empty tables, eager and lazy reads) must decode to the tables the server function exports. For every project of the model corpus (plurals with keys between their forms, ranges, references, namespaces, inherits) the decoded table the build helper exports equals the strings list of the macro-way parse (ICU feature checks on), file by file, order included. The same invariants are checked on every project of every other L1 check. Each exported table is also read back through the library's client-side type LocaleServerFnOutputClient. Pages also read a unit only through the td! view of a key without literal text.",
+        "Every Unicode scalar as a one-character translation and all pairs over 14 hostile characters, in flat, nested-subkey, namespaced, defaulted and foreign-key-duplicated layouts: each Literal::String(s,i) must satisfy strings[i]==s with i in range, and the string count recorded in every (sub-)locale must equal the table length; plus every assignment of 3 shared strings / an interpolation / null to 2 keys in 3-4 locales (x inherits x namespaces) and, for the build helper, every sequence of <= 3 exports of 4 project variants into one output directory; every assignment of 7 literal kinds to one key in 3 locales; (L3) the tables embedded in server-rendered pages (dynamic_load + ssr probe crates, every ordered subset of touched units incl. units with empty tables, eager and lazy reads) must decode to the tables the server function exports. For every project of the model corpus (plurals with keys between their forms, ranges, references, namespaces, inherits) the decoded table the build helper exports equals the strings list of the macro-way parse (ICU feature checks on), file by file, order included. The same invariants are checked on every project of every other L1 check. Each exported table is also read back through the library's client-side type LocaleServerFnOutputClient. Pages also read a unit only through the td! view of a key without literal text. A plain key that the second locale leaves to the default, read in either locale as the only read of its unit.",
         L1_NOTE + " File written by the build helper / generated-code sizes: see engines vbuild / L2 in the evidence when present.",
         "DESIGN.md §3 C11",
     ),
@@ -106,7 +106,7 @@ CLAIMED = {
     ),
     "C02": (
         "exhaustive enumeration of accessor flavours x scoping prefixes x locales x counts over a project holding every key kind, executed in generated probe crates against the reference renderer",
-        "A project with one key of every kind at depth 1 and 3 in two namespaces and three locales (inheritance, explicit nulls, gaps) is compiled through the real proc-macro; every key is read through td/t/tu x view/string/display, through scope_locale!/scope_i18n! at every proper prefix (one step and chained) and use_i18n_scoped!, and the const accessor chain, with counts {0,1,2,5}, t! / tu! views built under another locale and rendered after the context moved, and count-driven views whose count closure changes its value after the view closure was built / called once; the ranges of the project have overlapping branches (an exact value and an alternative list written after the bounds containing them: the view and the string back-ends generate their branch chains separately); every record must equal the reference rendering, hence all flavours agree; in a second project (en, bn, sv) keys carrying number formatters are read through all 9 flavours with positive / negative / zero / fractional / integer-typed values, and in a third (en, fr, de, bn) date / time / datetime / list / currency formatters: each must equal the direct ICU4X call. The kinds project also holds values whose literal segments are nothing but blanks (between variables, between components, next to a reference, at both ends).",
+        "A project with one key of every kind at depth 1 and 3 in two namespaces and three locales (inheritance, explicit nulls, gaps) is compiled through the real proc-macro; every key is read through td/t/tu x view/string/display, through scope_locale!/scope_i18n! at every proper prefix (one step and chained) and use_i18n_scoped!, and the const accessor chain, with counts {0,1,2,5}, t! / tu! views built under another locale and rendered after the context moved, and count-driven views whose count closure changes its value after the view closure was built / called once; the ranges of the project have overlapping branches (an exact value and an alternative list written after the bounds containing them: the view and the string back-ends generate their branch chains separately); every record must equal the reference rendering, hence all flavours agree; in a second project (en, bn, sv) keys carrying number formatters are read through all 9 flavours with positive / negative / zero / fractional / integer-typed values, and in a third (en, fr, de, bn) date / time / datetime / list / currency formatters: each must equal the direct ICU4X call. The kinds project also holds values whose literal segments are nothing but blanks (between variables, between components, next to a reference, at both ends). The list value holds an empty item.",
         "Seam L3: only documented macros inside the probe; context flavours run on a natively created I18nContext (ssr). Quick tier thins view flavours under scoping.",
         "DESIGN.md §3 C02",
     ),
@@ -118,13 +118,13 @@ CLAIMED = {
     ),
     "C17": (
         "exhaustive enumeration of hostile string contents x ordered subsets of touched translation units, rendered natively by probe crates built with dynamic_load+ssr, decoded by an independent HTML/JS literal reader",
-        "All 196 two-character strings over 14 hostile characters plus </script>, <!--, -->, quotes, backtick, newlines, U+2028/9 (alone and inside sentences) are the translations of two probe crates; <I18nContextProvider> is rendered to HTML for every ordered subset of touched (locale, namespace) units - read lazily (render-time closures), eagerly (while the provider's children are built, as t_string! in a component body) or mixed -, for units whose table is empty next to others in every order, for units read only below a nested <I18nSubContextProvider>, for pages walked once with dry_resolve() before rendering, and for a context-driven render with a locale switch; every script element, cut as an HTML tokenizer cuts it, must be one valid assignment, and the decoded array of the last one (what the client finds) lists exactly the touched units, each with the table its server function exports. Each exported table is also read back through the library's client-side type LocaleServerFnOutputClient; the flat probe project names its second locale pt-br (a non-canonical spelling). Pages also read a unit only through the td! view of a key without literal text.",
+        "All 196 two-character strings over 14 hostile characters plus </script>, <!--, -->, quotes, backtick, newlines, U+2028/9 (alone and inside sentences) are the translations of two probe crates; <I18nContextProvider> is rendered to HTML for every ordered subset of touched (locale, namespace) units - read lazily (render-time closures), eagerly (while the provider's children are built, as t_string! in a component body) or mixed -, for units whose table is empty next to others in every order, for units read only below a nested <I18nSubContextProvider>, for pages walked once with dry_resolve() before rendering, and for a context-driven render with a locale switch; every script element, cut as an HTML tokenizer cuts it, must be one valid assignment, and the decoded array of the last one (what the client finds) lists exactly the touched units, each with the table its server function exports. Each exported table is also read back through the library's client-side type LocaleServerFnOutputClient; the flat probe project names its second locale pt-br (a non-canonical spelling). Pages also read a unit only through the td! view of a key without literal text. A plain key that the second locale leaves to the default, read in either locale as the only read of its unit.",
         "Seam L3 (dynamic_load + ssr), native rendering. The hydrate-side consumer needs a browser and is not executed.",
         "DESIGN.md §3 C17",
     ),
     "C18": (
         "exhaustive enumeration of the documented formatter grammar (L1), of declarations x locales x values against direct ICU4X calls in probe crates with all cache histories (L3), and bounded DPOR over thread interleavings of the real cache under loom",
-        "(L1) all 95 formatter texts + 768 whitespace variants must be understood as the documented Formatter value; (L3) each declaration x 7 locales (one rendering another locale's declaration, one with non-Latin default digits) x values (large, zero, small integer, negative, beyond 2^63, negative zero) through td_string!/td!/td_format_string! must equal a direct ICU4X call for the locale being rendered, and every sequence of <= 4/5 colliding cache lookups must give the same results whatever ran before; in a build without compiled data the formatters of a registered provider must also work from threads spawned afterwards; (loom) every interleaving up to 2/3 preemptions of concurrent first uses of the cache (3 scenarios) must give the direct ICU4X results without deadlock or panic. en-GB stands next to en, and every other declaration meets the locales in reverse order (formatters are per locale, not per language, whichever is built first).",
+        "(L1) all 95 formatter texts + 768 whitespace variants must be understood as the documented Formatter value; (L3) each declaration x 7 locales (one rendering another locale's declaration, one with non-Latin default digits) x values (large, zero, small integer, negative, beyond 2^63, negative zero) through td_string!/td!/td_format_string! must equal a direct ICU4X call for the locale being rendered, and every sequence of <= 4/5 colliding cache lookups must give the same results whatever ran before; in a build without compiled data the formatters of a registered provider must also work from threads spawned afterwards; (loom) every interleaving up to 2/3 preemptions of concurrent first uses of the cache (3 scenarios) must give the direct ICU4X results without deadlock or panic. en-GB stands next to en, and every other declaration meets the locales in reverse order (formatters are per locale, not per language, whichever is built first). Lists include one with an empty item.",
         "Seams L1, L3, and loom via cargo feature verif_loom (cache lock and lazy static taken from loom, cache code unchanged; crate built through a shadow manifest that supplies loom). ICU4X compiled data is the trusted base. `time_length: full|long` is a recorded known finding (ICU4X refuses, the library panics).",
         "DESIGN.md §3 C18",
     ),
